@@ -307,6 +307,7 @@ func (e *c04Exec) subRun(z zoneCfg) (out []string, sdig string, infra string) {
 			v.Stats.probeN("two-clients-inside-same-node", sc.overlapNode)
 			v.Stats.probeN("switch-at-node", sc.ypSwitched[ypNode])
 			v.Stats.probeN("switch-in-callback", sc.ypSwitched[ypCallback])
+			v.Stats.probeN("switch-at-global-state", sc.ypSwitched[ypGlobal])
 			if sc.overrun {
 				v.Stats.probe("step-bound-hit")
 			}
